@@ -723,7 +723,10 @@ impl RenetClient {
     /// `next_message_id` messages. `send` lists (channel, id) for send channels, `recv` for receive channels.
     /// Only valid on a connection that has not sent or received anything yet.
     pub fn verif_set_counters(&mut self, packet_sequence: u64, send: &[(u8, u64)], recv: &[(u8, u64)]) {
-        assert!(self.sent_packets.is_empty() && self.pending_acks.is_empty(), "verif counter teleport is only for fresh connections");
+        assert!(
+            self.sent_packets.is_empty() && self.pending_acks.is_empty(),
+            "verif counter teleport is only for fresh connections"
+        );
         self.packet_sequence = packet_sequence;
         for &(channel_id, id) in send {
             if let Some(c) = self.send_reliable_channels.get_mut(&channel_id) {
